@@ -116,7 +116,9 @@ func init() {
 		"iterative functions (Sqrt, Cbrt, Exp, Ln, Log10, Pow): see not_applicable / per-property notes"}
 
 	checkDefs["C01"] = &CheckDef{Prop: "C01", Enable: []string{"C01."},
-		Instances:  func(tier string) []Instance { return append(arithInstances(tier, "zero"), p0Instances(tier)...) },
+		Instances: func(tier string) []Instance {
+			return append(append(arithInstances(tier, "zero"), p0Instances(tier)...), ctxParseInstances(tier, "zero")...)
+		},
 		PathModels: true, PathModelSample: 40, Stubs: stubsLevelA, Bounds: boundsArith, Outside: outsideArith, Assumptions: assumeCommon,
 		RequireCovers: []string{"round.subnormal", "round.overflow", "round.inexact", "add.subnormal", "mul.overflow", "quo.subnormal", "quo.inexact"}}
 	checkDefs["C02"] = &CheckDef{Prop: "C02", Enable: []string{"C02."},
@@ -127,6 +129,7 @@ func init() {
 	checkDefs["C07"] = &CheckDef{Prop: "C07", Enable: []string{"C07."},
 		Instances: func(tier string) []Instance {
 			out := append(append(arithInstances(tier, "zero"), divIntInstances(tier, "zero")...), quantizeInstances(tier, "zero")...)
+			out = append(out, ctxParseInstances(tier, "zero")...)
 			return append(out, compositeInstances(tier)...)
 		},
 		PathModels: true, PathModelSample: 40, Stubs: stubsLevelA, Bounds: boundsArith, Outside: outsideArith, Assumptions: assumeCommon}
@@ -171,6 +174,8 @@ func init() {
 			for _, op := range []string{"modf_integ", "modf_frac", "neg", "abs", "set", "reduce"} {
 				out = append(out, inst("VerifAliasDecimal", 1, p("op", op, "K", 4, "W", 5, "regime", 0)))
 			}
+			// iterative functions: destination == operand on concrete operands, every trap set
+			out = append(out, compositeInstances(tier)...)
 			return out
 		},
 		PathModels: true, PathModelSample: 15, Stubs: stubsLevelA, Assumptions: assumeCommon, Bounds: boundsTwoRun,
@@ -178,7 +183,8 @@ func init() {
 			"composite functions (Sqrt..Pow)", "larger coefficients / exponent windows"}}
 	checkDefs["C06"] = &CheckDef{Prop: "C06", Enable: []string{"C06.", "W.write"},
 		Instances: func(tier string) []Instance {
-			return twoRunInstances(tier, "VerifDestIndep", "zero", twoModes(tier), nil)
+			// (iterative functions: write monitor on concrete operands under every trap set)
+			return append(twoRunInstances(tier, "VerifDestIndep", "zero", twoModes(tier), nil), compositeInstances(tier)...)
 		},
 		PathModels: true, PathModelSample: 15, Stubs: stubsLevelA, Assumptions: assumeCommon, Bounds: boundsTwoRun,
 		Outside: []string{"history independence is obtained by induction: no operation writes package-level state (write monitor on every store of every explored path), hence the outcome is a function of operands and context alone; it is not explored as sequences",
@@ -188,6 +194,7 @@ func init() {
 			out := twoRunInstances(tier, "VerifDestIndep", "zero", twoModes(tier), nil)
 			out = append(out, inst("VerifCmp", 2, p("K", 4, "full", 1)), inst("VerifCmpTotal", 2, p("K", 4, "full", 1)))
 			out = append(out, numDigitsInstances("quick")[:6]...)
+			out = append(out, compositeInstances(tier)...)
 			return out
 		},
 		PathModels: false, Stubs: stubsLevelA, Assumptions: append([]string{
@@ -417,16 +424,55 @@ func init() {
 		Outside: []string{"the iterative functions on symbolic operands (their loops are executed for the listed concrete operands only)", "JSON/Gob/Scan(fmt.ScanState) wrappers of BigInt (pass-through to math/big)",
 			"BigInt methods' own panics are math/big's documented ones (C16)", "zero coefficients with exponents above 24 in Int64 (100000 loop iterations)"},
 		RequireCovers: []string{"parse.accepted", "numdigits.negative", "composite.ok", "composite.error"}}
+	checkDefs["C16"] = &CheckDef{Prop: "C16", Enable: []string{"C16."},
+		Instances: func(tier string) []Instance {
+			var out []Instance
+			mh := 1
+			if tier == "thorough" {
+				mh = 2
+			}
+			lb := func(h string, w int, kv ...interface{}) Instance {
+				i := inst(h, w, p(kv...))
+				i.LevelB = true
+				i.Params["feasTimeout"] = "300" // 128-bit bvmul feasibility queries: unknown keeps the branch
+				return i
+			}
+			for _, op := range []string{"add", "sub", "mul", "quo", "rem"} {
+				for _, pat := range []string{"none", "zx", "zy", "xy", "zxy"} {
+					out = append(out, lb("VerifBigBinary", 5, "op", op, "pat", pat, "maxheap", mh))
+				}
+			}
+			out = append(out, lb("VerifBigBinary", 8, "op", "quorem", "pat", "none", "maxheap", mh-1))
+			for _, op := range []string{"set", "abs", "neg"} {
+				for _, pat := range []string{"none", "zx"} {
+					out = append(out, lb("VerifBigUnary", 1, "op", op, "pat", pat, "maxheap", mh+1))
+				}
+			}
+			for _, w := range []string{"cmp", "unary", "bitlen", "setters"} {
+				out = append(out, lb("VerifBigScalar", 3, "what", w, "maxheap", mh+1))
+			}
+			return out
+		},
+		PathModels: true, PathModelSample: 30, Assumptions: append([]string{
+			"math/big is trusted: its methods are modelled at the API boundary on reference values (sign + normalised 64-bit words); results are written into the receiver's backing array when they fit its capacity, else into a fresh array, and words beyond the new length are left dirty",
+			"multi-word products/quotients and the bitwise/shift/exp/gcd methods are uninterpreted functions of the operand values (what is decided is that the wrapper passes the right values and stores the result correctly)",
+			"amd64 layout: 64-bit words, two inline words; intStruct and big.Int have the same layout"}, assumeCommon...),
+		Stubs: []string{"math/big API (Level B): SetBits, Bits, Sign, Cmp, CmpAbs, Set, Abs, Neg, Add, Sub, Mul, Quo, Rem, QuoRem, IsInt64, IsUint64, Int64, Uint64, Bit(0), BitLen exact; Div, Mod, And, Or, Xor, AndNot, Not, Lsh, Rsh, Exp, Sqrt as uninterpreted functions", "math/bits Add64/Sub64/Mul64/Len: documented bit-vector meaning", "noescape: identity"},
+		Bounds: map[string]interface{}{"quick": "ONE inductive step of each method from ARBITRARY valid representations: every operand is inline non-negative, inline negative (non-zero) or heap-backed with up to 1 word (unary/scalar: 2 words), all 64-bit words symbolic, inline words arbitrary even when heap-backed; alias patterns none, z==x, z==y, x==y, z==x==y; methods Add, Sub, Mul, Quo, Rem, QuoRem, Set, Abs, Neg, Sign, Cmp, CmpAbs, IsInt64, IsUint64, Int64, Uint64, Bit(0), BitLen, SetInt64, SetUint64",
+			"thorough": "heap operands up to 2 (3) words"},
+		Outside:       []string{"heap values above the stated word count in the pre-state", "text/JSON/Gob/Scan/Format wrappers, Append/SetString fast paths, and the pass-through wrappers And..ModSqrt (not yet harnessed)", "32-bit platforms"},
+		RequireCovers: []string{"big.zero_result", "big.heap_result"}}
 	checkDefs["C15"] = &CheckDef{Prop: "C15", Enable: []string{"C15."},
 		Instances: func(tier string) []Instance {
-			K := 6
+			// at least 20 digits: the coefficients cross the uint64 boundary
+			K := 21
 			if tier == "thorough" {
-				K = 16
+				K = 40
 			}
-			return []Instance{inst("VerifCmp", 2, p("K", K, "full", 1)), inst("VerifCmpTotal", 3, p("K", K, "full", 1))}
+			return []Instance{inst("VerifCmp", 2, p("K", K, "full", 1, "maxDigits", K+6)), inst("VerifCmpTotal", 3, p("K", K, "full", 1, "maxDigits", K+6))}
 		},
 		PathModels: true, PathModelSample: 150, Stubs: stubsLevelA, Assumptions: assumeCommon,
-		Bounds:        map[string]interface{}{"quick": "coefficients up to 6 digits, exponents over the full package range [-100000, 100000], all four forms and signs", "thorough": "16 digits"},
+		Bounds:        map[string]interface{}{"quick": "coefficients up to 21 digits (across the uint64 boundary), exponents over the full package range [-100000, 100000], all four forms and signs", "thorough": "40 digits"},
 		Outside:       []string{"coefficients with more digits", "transitivity of CmpTotal is not queried on triples: it follows from CmpTotal being equal to a comparison of keys in a totally ordered key space (asserted pairwise)"},
 		RequireCovers: []string{"cmp.finite", "cmp.infinf"}}
 }
@@ -524,10 +570,33 @@ func p0Instances(tier string) []Instance {
 	return out
 }
 
+// ctxParseInstances: context-aware parsing of strings assembled from symbolic parts.
+func ctxParseInstances(tier string, traps string) []Instance {
+	base := p("Pmin", 1, "regime", 0, "traps", traps)
+	modes := []string{"half_even", "floor"}
+	shapes := [][3]int{{2, 1, 1}, {1, 2, 1}, {3, 0, 1}, {0, 3, 1}, {3, 0, 0}, {1, 1, 0}}
+	if tier == "thorough" {
+		modes = allModes
+		shapes = append(shapes, [3]int{3, 2, 1}, [3]int{2, 3, 1}, [3]int{4, 0, 1})
+	}
+	var out []Instance
+	for _, m := range modes {
+		for i, sh := range shapes {
+			via := "set"
+			if i%2 == 1 {
+				via = "new"
+			}
+			out = append(out, inst("VerifCtxParse", 3, base, "mode", m, "ni", sh[0], "nf", sh[1], "withexp", sh[2], "trailingpoint", i%2, "via", via, "K", 3, "W", 4))
+		}
+	}
+	return out
+}
+
 // compositeInstances: iterative functions on concrete operands under every trap set.
 func compositeInstances(tier string) []Instance {
 	type cs struct{ op, x, y string }
-	cases := []cs{{"exp", "0.5", ""}, {"exp", "-3.2", ""}, {"exp", "40", ""}, {"ln", "1.05", ""}, {"ln", "0.99999", ""}, {"ln", "7", ""}, {"ln", "1E+50000", ""},
+	cases := []cs{{"cbrt", "8", ""}, {"cbrt", "8E+12", ""}, {"cbrt", "8E-12", ""}, {"cbrt", "-0.125", ""}, {"sqrt", "4E+14", ""}, {"sqrt", "9E-14", ""},
+		{"ln", "1E-9", ""}, {"exp", "1E-9", ""}, {"exp", "0.5", ""}, {"exp", "-3.2", ""}, {"exp", "40", ""}, {"ln", "1.05", ""}, {"ln", "0.99999", ""}, {"ln", "7", ""}, {"ln", "1E+50000", ""},
 		{"log10", "3", ""}, {"log10", "1E+50000", ""}, {"log10", "0.001", ""}, {"sqrt", "2", ""}, {"sqrt", "0.0000002", ""}, {"sqrt", "16", ""},
 		{"cbrt", "5", ""}, {"cbrt", "-27", ""}, {"pow", "2", "3"}, {"pow", "1.1", "-2"}, {"pow", "2", "0.5"}, {"pow", "-3", "3"}}
 	ctxs := [][3]int{{4, -6, 6}, {4, -2, 2}}
